@@ -1,5 +1,9 @@
 import GettsimVerif.Driver
 import GettsimVerif.DriverLang
+import GettsimVerif.Core.Levels
+import GettsimVerif.Core.VecDtype
+import GettsimVerif.Core.Process
+import GettsimVerif.Core.Typing
 /- Dispatch of the line protocol to the executable models. -/
 open Lean GV
 
@@ -135,9 +139,138 @@ def opPwEval (j : Json) : Except String Json := do
   let s : Piecewise.Schedule := { thresholds := thr, rates := rates, intercepts := ← rats j "intercepts" }
   pure (Json.mkObj [("ok", oRats ((← rats j "x").map (Piecewise.eval s)))])
 
+def jLevel (s : String) : Except String Levels.Level :=
+  match Levels.Level.ofString? s with
+  | some l => pure l
+  | none => throw s!"bad level {s}"
+
+def jKind (j : Json) : Except String Levels.Kind := do
+  match ← str j "k" with
+  | "input" => match j.getObjVal? "level" with
+    | .ok (.str l) => do pure (.input (some (← jLevel l)))
+    | _ => pure (.input none)
+  | "param" => pure .param
+  | "agg" => do pure (.agg (← jLevel (← str j "level")))
+  | "rowwise" => do pure (.rowwise (← strs j "args"))
+  | "grouping" => do pure (.grouping (← jLevel (← str j "level")))
+  | "timeconv" => do pure (.timeconv (← str j "src"))
+  | "opaque" => pure .opaque
+  | k => throw s!"bad kind {k}"
+
+/-- {"graph": [[name, kind]] (dependencies first), "names": [[name, level]]} → unproved suffixed nodes + table -/
+def opLevels (j : Json) : Except String Json := do
+  let graph ← (← jArr (← field j "graph")).mapM fun e => match e with
+    | .arr #[.str n, k] => do pure (n, ← jKind k)
+    | _ => throw "bad graph entry"
+  let names ← (← jArr (← field j "names")).mapM fun e => match e with
+    | .arr #[.str n, .str l] => do pure (n, ← jLevel l)
+    | _ => throw "bad name entry"
+  let bad := Levels.checkSuffixesT graph names
+  let tab := Levels.constTable graph
+  pure (Json.mkObj [("unproved", .arr (bad.map Json.str).toArray),
+    ("table", .arr (tab.map fun (n, ls) => Json.arr #[.str n, .arr (ls.map fun l => Json.str l.suffix).toArray]).toArray)])
+
+def jR (j : Json) : Except String VecDtype.R :=
+  match j with
+  | .bool b => pure (.b b)
+  | .num n => if n.exponent = 0 then pure (.i n.mantissa) else throw "use strings for floats"
+  | .str s => do pure (.f (← ratOfString s))
+  | _ => throw "bad result"
+
+def oR : VecDtype.R → Json
+  | .b v => .bool v
+  | .i v => Json.num (JsonNumber.fromInt v)
+  | .f q => .str (ratStr q)
+
+def dtName : VecDtype.DT → String
+  | .bool => "bool" | .int => "int" | .float => "float"
+
+/-- {"decl": "float"|"int"|"bool"|null, "rows": [...]} → dtype + values, or null (numpy raises) -/
+def opVectorize (j : Json) : Except String Json := do
+  let decl : Option VecDtype.DT ← match j.getObjVal? "decl" with
+    | .ok (.str "float") => pure (some .float) | .ok (.str "int") => pure (some .int)
+    | .ok (.str "bool") => pure (some .bool) | _ => pure none
+  let rows ← (← jArr (← field j "rows")).mapM jR
+  match VecDtype.vectorize decl rows with
+  | some (t, vs) => pure (Json.mkObj [("ok", Json.mkObj [("dtype", .str (dtName t)), ("values", .arr (vs.map oR).toArray)])])
+  | none => pure (Json.mkObj [("err", .str "ValueError")])
+
+/-! ### Typing model: cells travel as strings i:5 f:3/4 nan inf -inf b:1 s:text d:123 -/
+
+def jCell (j : Json) : Except String Typing.Cell := do
+  let s ← jStr j
+  if s = "nan" then pure .fnan
+  else if s = "inf" then pure (.finf false)
+  else if s = "-inf" then pure (.finf true)
+  else
+    let tag := (s.take 2).toString
+    let rest := (s.drop 2).toString
+    match tag with
+    | "i:" => match rest.toInt? with | some v => pure (.i v) | none => throw "bad int cell"
+    | "f:" => do pure (.f (← ratOfString rest))
+    | "b:" => pure (.b (rest = "1"))
+    | "s:" => pure (.s rest)
+    | "d:" => match rest.toInt? with | some v => pure (.d v) | none => throw "bad date cell"
+    | _ => throw s!"bad cell {s}"
+
+def oCell : Typing.Cell → Json
+  | .i v => .str s!"i:{v}"
+  | .f q => .str s!"f:{q.num}/{q.den}"
+  | .fnan => .str "nan"
+  | .finf n => .str (if n then "-inf" else "inf")
+  | .b v => .str (if v then "b:1" else "b:0")
+  | .s v => .str ("s:" ++ v)
+  | .d v => .str s!"d:{v}"
+
+def jDType : String → Except String Typing.DType
+  | "int64" => pure .int64 | "float64" => pure .float64 | "bool" => pure .bool
+  | "object" => pure .object | "datetime" => pure .datetime | "str" => pure .str
+  | s => throw s!"bad dtype {s}"
+
+def dtypeStr : Typing.DType → String
+  | .int64 => "int64" | .float64 => "float64" | .bool => "bool"
+  | .object => "object" | .datetime => "datetime" | .str => "str"
+
+def jITy : String → Except String Typing.ITy
+  | "float" => pure .float | "int" => pure .int | "bool" => pure .bool | "datetime" => pure .datetime
+  | s => throw s!"bad internal type {s}"
+
+def jCol (j : Json) : Except String Typing.Col := do
+  pure { dtype := ← jDType (← str j "dtype"), cells := ← (← jArr (← field j "cells")).mapM jCell }
+
+def oCol (c : Typing.Col) : Json :=
+  Json.mkObj [("dtype", .str (dtypeStr c.dtype)), ("cells", .arr (c.cells.map oCell).toArray)]
+
+def jTable (j : Json) : Except String Typing.Table := do
+  (← jArr j).mapM fun e => match e with
+    | .arr #[.str n, c] => do pure (n, ← jCol c)
+    | _ => throw "bad table entry"
+
+def opTyping (op : String) (j : Json) : Except String Json := do
+  match op with
+  | "typing_has" => do
+    pure (Json.mkObj [("ok", .bool (Typing.hasExpectedType (← jCol (← field j "col")) (← jITy (← str j "target"))))])
+  | "typing_convert" =>
+    pure (out oCol (Typing.convert (← jCol (← field j "col")) (← jITy (← str j "target"))))
+  | "typing_process" =>
+    pure (out (fun _ => Json.str "accepted")
+      (Typing.processAndCheck (← strs j "levels") (← strs j "fks") (← jTable (← field j "table"))))
+  | "typing_convert_all" => do
+    let types ← (← jArr (← field j "types")).mapM fun e => match e with
+      | .arr #[.str n, .str t] => do pure (n, ← jITy t)
+      | _ => throw "bad type entry"
+    pure (out (fun (r : Typing.Table × List String) =>
+        Json.mkObj [("table", .arr (r.1.map fun (n, c) => Json.arr #[.str n, oCol c]).toArray),
+                    ("converted", .arr (r.2.map Json.str).toArray)])
+      (Typing.convertAll types (← jTable (← field j "table"))))
+  | _ => throw "unknown typing op"
+
 def dispatch (j : Json) : Except String Json := do
   let op ← str j "op"
+  if op.startsWith "typing_" then return ← opTyping op j
   match op with
+  | "levels" => opLevels j
+  | "vectorize" => opVectorize j
   | "pw_eval" => opPwEval j
   | "transform" => opTransform j
   | "run_fun" => opRunFun j
